@@ -91,4 +91,168 @@ theorem applyAll_comm (ps qs : List Prim)
       apply_applyAll_comm p qs (h p List.mem_cons_self) st]
     rfl
 
+/-! ### footprints of the per-bundle steps -/
+
+theorem dealPrims_dealer (c : Cfg) (seen : Bool) (b : DealBundle) :
+    ∀ p ∈ (dealPrims c seen b).1, p.dealer = some b.dealerIndex := by
+  intro p hp
+  unfold dealPrims at hp
+  split at hp
+  · simp at hp
+  · split at hp
+    · simp at hp
+    · split at hp
+      · simp at hp; subst hp; rfl
+      · split at hp
+        · simp at hp; subst hp; rfl
+        · split at hp
+          · simp at hp; subst hp; rfl
+          · simp only [List.mem_append, List.mem_cons, List.not_mem_nil, or_false] at hp
+            rcases hp with (hp | hp) | hp
+            · subst hp; rfl
+            · split at hp
+              · simp at hp; rcases hp with rfl | rfl <;> rfl
+              · simp at hp
+            · split at hp
+              · simp at hp; subst hp; rfl
+              · simp at hp
+
+theorem justInnerPrims_dealer (c : Cfg) (d : Nat) (pp : Option (List Nat)) (js : List Justification) :
+    ∀ p ∈ justInnerPrims c d pp js, p.dealer = some d := by
+  induction js with
+  | nil => intro p hp; simp [justInnerPrims] at hp
+  | cons j rest ih =>
+    intro p hp
+    unfold justInnerPrims at hp
+    split at hp
+    · rcases List.mem_cons.mp hp with rfl | hp
+      · rfl
+      · exact ih p hp
+    · split at hp
+      · simp at hp; subst hp; rfl
+      · split at hp
+        · rcases List.mem_cons.mp hp with rfl | hp
+          · rfl
+          · exact ih p hp
+        · split at hp
+          · rcases List.mem_cons.mp hp with rfl | hp
+            · rfl
+            · exact ih p hp
+          · simp only [List.cons_append, List.mem_cons, List.mem_append] at hp
+            rcases hp with rfl | hp | hp
+            · rfl
+            · split at hp
+              · simp at hp; subst hp; rfl
+              · simp at hp
+            · exact ih p hp
+
+theorem justPrims_dealer (c : Cfg) (seen ev : Bool) (pp : Option (List Nat)) (b : JustBundle) :
+    ∀ p ∈ (justPrims c seen ev pp b).1, p.dealer = some b.dealerIndex := by
+  intro p hp
+  unfold justPrims at hp
+  split at hp
+  · simp at hp; subst hp; rfl
+  · split at hp
+    · simp at hp
+    · split at hp
+      · simp at hp
+      · split at hp
+        · simp at hp
+        · split at hp
+          · simp at hp; subst hp; rfl
+          · exact justInnerPrims_dealer c _ _ _ p hp
+
+theorem respPrims_holder (c : Cfg) (b : ResponseBundle) :
+    ∀ p ∈ (respPrims c b).1, p.holder = some b.shareIndex := by
+  intro p hp
+  unfold respPrims at hp
+  split at hp
+  · simp at hp
+  · split at hp
+    · simp at hp
+    · split at hp
+      · simp at hp; subst hp; rfl
+      · simp only [respInnerPrims, List.mem_map] at hp
+        obtain ⟨r, _, rfl⟩ := hp
+        split <;> rfl
+
+/-- Mutations on row `i` leave `evicted`, `allPublics` at other rows alone. -/
+theorem apply_evicted_other (st : St) {p : Prim} {i j : Nat} (hp : p.dealer = some i) (hij : j ≠ i) :
+    (st.apply p).evicted j = st.evicted j ∧ (st.apply p).allPublics j = st.allPublics j := by
+  cases p <;> simp only [Prim.dealer, Option.some.injEq, reduceCtorEq] at hp <;> subst hp <;>
+    simp [St.apply, upd, hij]
+
+theorem applyAll_reads_other (st : St) (ps : List Prim) {i j : Nat} (hp : ∀ p ∈ ps, p.dealer = some i) (hij : j ≠ i) :
+    (st.applyAll ps).evicted j = st.evicted j ∧ (st.applyAll ps).allPublics j = st.allPublics j := by
+  induction ps generalizing st with
+  | nil => exact ⟨rfl, rfl⟩
+  | cons p ps ih =>
+    rw [applyAll_cons]
+    obtain ⟨h1, h2⟩ := ih (st.apply p) (fun q hq => hp q (List.mem_cons_of_mem _ hq))
+    obtain ⟨h3, h4⟩ := apply_evicted_other st (hp p List.mem_cons_self) hij
+    exact ⟨h1.trans h3, h2.trans h4⟩
+
+theorem applyAll_comm_dealer (st : St) (ps qs : List Prim) {i j : Nat} (hp : ∀ p ∈ ps, p.dealer = some i)
+    (hq : ∀ q ∈ qs, q.dealer = some j) (hij : i ≠ j) :
+    (st.applyAll ps).applyAll qs = (st.applyAll qs).applyAll ps :=
+  applyAll_comm ps qs (fun p hpm q hqm s => apply_comm_dealer s (hp p hpm) (hq q hqm) hij) st
+
+theorem applyAll_comm_holder (st : St) (ps qs : List Prim) {i j : Nat} (hp : ∀ p ∈ ps, p.holder = some i)
+    (hq : ∀ q ∈ qs, q.holder = some j) (hij : i ≠ j) :
+    (st.applyAll ps).applyAll qs = (st.applyAll qs).applyAll ps :=
+  applyAll_comm ps qs (fun p hpm q hqm s => apply_comm_holder s (hp p hpm) (hq q hqm) hij) st
+
+/-! ### the steps commute for different senders -/
+
+theorem seen_step_other (seen : Nat → Bool) (f : Bool) (i j : Nat) (hij : j ≠ i) :
+    (if f then upd seen i true else seen) j = seen j := by
+  cases f <;> simp [upd, hij]
+
+theorem seen_comm (seen : Nat → Bool) (f g : Bool) {i j : Nat} (hij : i ≠ j) :
+    (if g then upd (if f then upd seen i true else seen) j true else (if f then upd seen i true else seen)) =
+    (if f then upd (if g then upd seen j true else seen) i true else (if g then upd seen j true else seen)) := by
+  cases f <;> cases g <;> simp [upd_comm _ hij]
+
+theorem dealStep_comm (c : Cfg) (acc : St × (Nat → Bool)) (x y : DealBundle) (h : x.dealerIndex ≠ y.dealerIndex) :
+    dealStep c (dealStep c acc x) y = dealStep c (dealStep c acc y) x := by
+  unfold dealStep
+  simp only [seen_step_other _ _ _ _ h, seen_step_other _ _ _ _ (Ne.symm h)]
+  refine Prod.ext ?_ ?_
+  · exact applyAll_comm_dealer _ _ _ (dealPrims_dealer c _ x) (dealPrims_dealer c _ y) h
+  · exact (seen_comm acc.2 _ _ h)
+
+theorem justStep_comm (c : Cfg) (acc : St × (Nat → Bool)) (x y : JustBundle) (h : x.dealerIndex ≠ y.dealerIndex) :
+    justStep c (justStep c acc x) y = justStep c (justStep c acc y) x := by
+  unfold justStep
+  simp only [seen_step_other _ _ _ _ h, seen_step_other _ _ _ _ (Ne.symm h)]
+  have r1 := applyAll_reads_other acc.1 _ (justPrims_dealer c (acc.2 x.dealerIndex) (acc.1.evicted x.dealerIndex)
+    (acc.1.allPublics x.dealerIndex) x) (Ne.symm h)
+  have r2 := applyAll_reads_other acc.1 _ (justPrims_dealer c (acc.2 y.dealerIndex) (acc.1.evicted y.dealerIndex)
+    (acc.1.allPublics y.dealerIndex) y) h
+  simp only [r1.1, r1.2, r2.1, r2.2]
+  refine Prod.ext ?_ ?_
+  · exact applyAll_comm_dealer _ _ _ (justPrims_dealer c _ _ _ x) (justPrims_dealer c _ _ _ y) h
+  · exact (seen_comm acc.2 _ _ h)
+
+theorem respStep_comm (c : Cfg) (acc : RespAcc) (x y : ResponseBundle) (h : x.shareIndex ≠ y.shareIndex) :
+    respStep c (respStep c acc x) y = respStep c (respStep c acc y) x := by
+  unfold respStep
+  simp only
+  have e1 := applyAll_comm_holder acc.st _ _ (respPrims_holder c x) (respPrims_holder c y) h
+  have e2 := seen_comm acc.validAuthors (respPrims c x).2.1 (respPrims c y).2.1 h
+  rw [e1, e2, Bool.or_assoc, Bool.or_comm (respPrims c x).2.2, ← Bool.or_assoc]
+
+/-- Folding a step over a permuted list gives the same result when the step commutes for different
+    senders and senders are pairwise different. -/
+theorem foldl_perm_of_comm {α β : Type} (f : β → α → β) (key : α → Nat)
+    (hcomm : ∀ z x y, key x ≠ key y → f (f z x) y = f (f z y) x)
+    {l₁ l₂ : List α} (hp : l₁.Perm l₂) (hnd : (l₁.map key).Nodup) (init : β) :
+    l₁.foldl f init = l₂.foldl f init := by
+  apply hp.foldl_eq'
+  intro x hx y hy z
+  by_cases hxy : key x = key y
+  · have : x = y := List.inj_on_of_nodup_map hnd hx hy hxy
+    subst this; rfl
+  · exact hcomm z x y hxy
+
 end Kyber.Dkg
